@@ -69,6 +69,14 @@
 #endif
 #define false ((cJSON_bool)0)
 
+/* verification hook: scheduler yield point / reach probe; compiled out unless DAVEGAMBLE_CJSON_VERIF is defined */
+#ifdef DAVEGAMBLE_CJSON_VERIF
+extern void cjson_verif_yield(int site);
+#define CJSON_VERIF_YIELD(site) cjson_verif_yield(site);
+#else
+#define CJSON_VERIF_YIELD(site)
+#endif
+
 /* define isnan and isinf for ANSI C, if in C99 or above, isnan and isinf has been defined in math.h */
 #ifndef isinf
 #define isinf(d) (isnan((d - d)) && !isnan(d))
@@ -255,6 +263,7 @@ CJSON_PUBLIC(void) cJSON_Delete(cJSON *item)
     cJSON *next = NULL;
     while (item != NULL)
     {
+        CJSON_VERIF_YIELD(12)
         next = item->next;
         if (!(item->type & cJSON_IsReference) && (item->child != NULL))
         {
@@ -351,6 +360,7 @@ static cJSON_bool parse_number(cJSON * const item, parse_buffer * const input_bu
     }
 loop_end:
     number_c_string[i] = '\0';
+    CJSON_VERIF_YIELD(19)
 
     number = strtod((const char*)number_c_string, (char**)&after_end);
     if (number_c_string == after_end)
@@ -460,6 +470,7 @@ static unsigned char* ensure(printbuffer * const p, size_t needed)
     unsigned char *newbuffer = NULL;
     size_t newsize = 0;
 
+    CJSON_VERIF_YIELD(6)
     if ((p == NULL) || (p->buffer == NULL))
     {
         return NULL;
@@ -484,6 +495,7 @@ static unsigned char* ensure(printbuffer * const p, size_t needed)
     }
 
     if (p->noalloc) {
+        CJSON_VERIF_YIELD(20)
         return NULL;
     }
 
@@ -508,9 +520,11 @@ static unsigned char* ensure(printbuffer * const p, size_t needed)
     if (p->hooks.reallocate != NULL)
     {
         /* reallocate with realloc if available */
+        CJSON_VERIF_YIELD(7)
         newbuffer = (unsigned char*)p->hooks.reallocate(p->buffer, newsize);
         if (newbuffer == NULL)
         {
+            CJSON_VERIF_YIELD(9)
             p->hooks.deallocate(p->buffer);
             p->length = 0;
             p->buffer = NULL;
@@ -521,9 +535,11 @@ static unsigned char* ensure(printbuffer * const p, size_t needed)
     else
     {
         /* otherwise reallocate manually */
+        CJSON_VERIF_YIELD(8)
         newbuffer = (unsigned char*)p->hooks.allocate(newsize);
         if (!newbuffer)
         {
+            CJSON_VERIF_YIELD(9)
             p->hooks.deallocate(p->buffer);
             p->length = 0;
             p->buffer = NULL;
@@ -604,6 +620,7 @@ static cJSON_bool print_number(const cJSON * const item, printbuffer * const out
         return false;
     }
 
+    CJSON_VERIF_YIELD(10)
     /* reserve appropriate space in the output */
     output_pointer = ensure(output_buffer, (size_t)length + sizeof(""));
     if (output_pointer == NULL)
@@ -699,6 +716,7 @@ static unsigned char utf16_literal_to_utf8(const unsigned char * const input_poi
         const unsigned char *second_sequence = first_sequence + 6;
         unsigned int second_code = 0;
         sequence_length = 12; /* \uXXXX\uXXXX */
+        CJSON_VERIF_YIELD(23)
 
         if ((input_end - second_sequence) < 6)
         {
@@ -835,6 +853,7 @@ static cJSON_bool parse_string(cJSON * const item, parse_buffer * const input_bu
         }
     }
 
+    CJSON_VERIF_YIELD(2)
     output_pointer = output;
     /* loop through the string literal */
     while (input_pointer < input_end)
@@ -989,6 +1008,7 @@ static cJSON_bool print_string_ptr(const unsigned char * const input, printbuffe
         return true;
     }
 
+    CJSON_VERIF_YIELD(11)
     output[0] = '\"';
     output_pointer = output + 1;
     /* copy the string */
@@ -1232,6 +1252,7 @@ static unsigned char *print(const cJSON * const item, cJSON_bool format, const i
     /* check if reallocate is available */
     if (hooks->reallocate != NULL)
     {
+        CJSON_VERIF_YIELD(21)
         printed = (unsigned char*) hooks->reallocate(buffer->buffer, buffer->offset + 1);
         if (printed == NULL) {
             goto fail;
@@ -1240,6 +1261,7 @@ static unsigned char *print(const cJSON * const item, cJSON_bool format, const i
     }
     else /* otherwise copy the JSON over to a new buffer */
     {
+        CJSON_VERIF_YIELD(22)
         printed = (unsigned char*) hooks->allocate(buffer->offset + 1);
         if (printed == NULL)
         {
@@ -1335,6 +1357,7 @@ CJSON_PUBLIC(cJSON_bool) cJSON_PrintPreallocated(cJSON *item, char *buffer, cons
 /* Parser core - when encountering text, process appropriately. */
 static cJSON_bool parse_value(cJSON * const item, parse_buffer * const input_buffer)
 {
+    CJSON_VERIF_YIELD(1)
     if ((input_buffer == NULL) || (input_buffer->content == NULL))
     {
         return false; /* no input */
@@ -1392,6 +1415,7 @@ static cJSON_bool print_value(const cJSON * const item, printbuffer * const outp
 {
     unsigned char *output = NULL;
 
+    CJSON_VERIF_YIELD(5)
     if ((item == NULL) || (output_buffer == NULL))
     {
         return false;
@@ -1501,6 +1525,7 @@ static cJSON_bool parse_array(cJSON * const item, parse_buffer * const input_buf
     {
         /* allocate next item */
         cJSON *new_item = cJSON_New_Item(&(input_buffer->hooks));
+        CJSON_VERIF_YIELD(3)
         if (new_item == NULL)
         {
             goto fail; /* allocation failure */
@@ -1659,6 +1684,7 @@ static cJSON_bool parse_object(cJSON * const item, parse_buffer * const input_bu
     {
         /* allocate next item */
         cJSON *new_item = cJSON_New_Item(&(input_buffer->hooks));
+        CJSON_VERIF_YIELD(4)
         if (new_item == NULL)
         {
             goto fail; /* allocation failure */
@@ -1986,6 +2012,7 @@ static cJSON_bool add_item_to_array(cJSON *array, cJSON *item)
 {
     cJSON *child = NULL;
 
+    CJSON_VERIF_YIELD(14)
     if ((item == NULL) || (array == NULL) || (array == item))
     {
         return false;
@@ -2234,11 +2261,13 @@ CJSON_PUBLIC(cJSON *) cJSON_DetachItemViaPointer(cJSON *parent, cJSON * const it
     if (item == parent->child)
     {
         /* first element */
+        CJSON_VERIF_YIELD(15)
         parent->child = item->next;
     }
     else if (item->next == NULL)
     {
         /* last element */
+        CJSON_VERIF_YIELD(16)
         parent->child->prev = item->prev;
     }
 
@@ -2335,6 +2364,7 @@ CJSON_PUBLIC(cJSON_bool) cJSON_ReplaceItemViaPointer(cJSON * const parent, cJSON
         return true;
     }
 
+    CJSON_VERIF_YIELD(18)
     replacement->next = item->next;
     replacement->prev = item->prev;
 
@@ -2751,6 +2781,7 @@ cJSON * cJSON_Duplicate_rec(const cJSON *item, size_t depth, cJSON_bool recurse)
     cJSON *next = NULL;
     cJSON *newchild = NULL;
 
+    CJSON_VERIF_YIELD(13)
     /* Bail on bad ptr */
     if (!item)
     {
